@@ -415,6 +415,9 @@ func init() {
 			itf := args[0].(Iface)
 			no, ok := itf.v.(*nativeObj)
 			if !ok {
+				if ex.p.stubSet["real-ipld"] {
+					return fallThrough{} // a real (basicnode) node: run the real codec
+				}
 				ex.unsupported("model codec: Encode of non-bindnode node %v", itf.t)
 			}
 			ns, ok := no.state.(*nodeState)
@@ -439,6 +442,9 @@ func init() {
 				bi := args[0].(Iface)
 				no, ok := bi.v.(*nativeObj)
 				if !ok {
+					if ex.p.stubSet["real-ipld"] {
+						return fallThrough{}
+					}
 					ex.unsupported("model codec: Decode into non-bindnode builder %v", bi.t)
 				}
 				bs, ok := no.state.(*builderState)
@@ -455,6 +461,9 @@ func init() {
 			bi := args[1].(Iface)
 			no, ok := bi.v.(*nativeObj)
 			if !ok {
+				if ex.p.stubSet["real-ipld"] {
+					return fallThrough{}
+				}
 				ex.unsupported("model codec: Decode into non-bindnode builder %v", bi.t)
 			}
 			bs, ok := no.state.(*builderState)
@@ -519,3 +528,7 @@ func (ex *Exec) linkMatches(fr *Frame, lnk Iface, data []*Term) bool {
 	}
 	return ex.branch(ex.equals(cidT, res[0], c), "link-hash-matches")
 }
+
+// fallThrough is returned by a model that declines a call: the real function
+// body is interpreted instead.
+type fallThrough struct{}
